@@ -164,6 +164,9 @@ def ev(S, F, x, asg, tabs=None):
         for key, fn in (asg.get("lazy_calls") or {}).items():
             if path == key or path.endswith(key):
                 return fn(args)  # handler decides from the unevaluated arguments
+        for key, fn in (asg.get("xcalls") or {}).items():
+            if path == key or path.endswith(key):  # handler also receives the calling body and block (for type arguments)
+                return fn(S, x[1] if isinstance(x[1], int) else None, [ev(S, F, a, asg, tabs) for a in args])
         calls = asg.get("calls") or {}
         for key, fn in calls.items():
             if path == key or path.endswith(key):
@@ -224,7 +227,8 @@ def ev(S, F, x, asg, tabs=None):
             # const generic arguments of the call, in order, bind the callee's const parameters
             cps = {}
             if isinstance(x[1], int):
-                cargs = [a for a in (S.b.blocks[x[1]]["term"]["callee"].get("args") or []) if a.get("k") in ("val", "cparam")]
+                c_ = S.b.blocks[x[1]]["term"]["callee"]
+                cargs = [a for a in ((c_.get("resolved") or c_).get("args") or []) if a.get("k") in ("val", "cparam")]
                 cnames = [g["n"] for g in cb.d.get("generics", []) if g.get("k") == "const"]
                 for nm_, a_ in zip(cnames[-len(cargs):] if cargs else [], cargs):
                     if a_["k"] == "val":
@@ -267,6 +271,10 @@ def ev(S, F, x, asg, tabs=None):
                     return v0[1]
                 if short == "unwrap_or" and v0[0] in ("Err", "None"):
                     return vals[1]
+                if short in ("unwrap", "expect") and v0[0] in ("Ok", "Some"):
+                    return v0[1]
+                if short in ("unwrap", "expect") and v0[0] in ("Err", "None"):
+                    raise Panics("%s on %s" % (short, v0[0]))
                 if short == "is_some":
                     return int(v0[0] == "Some")
                 if short == "is_none":
